@@ -38,6 +38,8 @@ pub struct Ctx {
     pub level: &'static str,
     /// a case that does not finish within this many seconds is treated as a suspected hang
     pub hang_secs: Option<u64>,
+    /// shrinking budget (cases that are slow when they fail need a small one)
+    pub max_shrink_iters: u32,
 }
 
 impl Ctx {
@@ -47,7 +49,7 @@ impl Ctx {
             .ok()
             .and_then(|s| s.parse::<usize>().ok())
             .unwrap_or_else(|| std::thread::available_parallelism().map(|n| n.get()).unwrap_or(4).min(16));
-        Ctx { prop, tier, seed, workers, start: Instant::now(), level, hang_secs: None }
+        Ctx { prop, tier, seed, workers, start: Instant::now(), level, hang_secs: None, max_shrink_iters: 4000 }
     }
     pub fn quick(&self) -> bool {
         self.tier == Tier::Quick
@@ -317,7 +319,7 @@ where
                         failure_persistence: None,
                         rng_algorithm: RngAlgorithm::ChaCha,
                         rng_seed: RngSeed::Fixed(seed),
-                        max_shrink_iters: 4000,
+                        max_shrink_iters: ctx.max_shrink_iters,
                         max_global_rejects: 1_000_000,
                         ..Config::default()
                     };
